@@ -123,6 +123,10 @@ Section Behave.
   Definition outcome := lres R.                 (* what a call gives: a result or the name of the exception raised *)
   Variable none : R.                            (* try_none's fallback *)
   Variable inj : V -> R.                        (* an argument handed back as a result (try_back) *)
+  (* the call pd2np hands on: the call itself when the first argument is not a pandas object (whatever exc= the
+     decorator was built with: excluded keywords are passed on too); with a pandas first argument every positional
+     argument and every keyword not in exc is replaced by its numpy values *)
+  Variable pdcall : sig V -> call V -> call V.
 
   (* try_value(value = v): the fallback exactly when f raises *)
   Definition try_value (v : R) (f : call V -> outcome) (c : call V) : outcome :=
@@ -151,14 +155,15 @@ Section Behave.
     | [], top :: _ => if String.eqb top "axis" then c else if ahas top (snd c) then (fst c, adel "axis" (snd c)) else c
     | _ :: _, _ => (fst c, adel "axis" (snd c))
     end.
-  (* cache on a single call, pd2np on non-pandas input: f itself *)
+  (* cache on a single call: f itself *)
   Definition apply_tag (s : sig V) (t : tag) (f : call V -> outcome) : call V -> outcome :=
     match t with
     | TTry => try_value none f
     | TBack => try_back s f
     | TKws => kwargs_support s f
     | TLoop => fun c => f (loops_call s c)
-    | TCache | TPd => f
+    | TPd => fun c => f (pdcall s c)
+    | TCache => f
     end.
   Definition apply_chain (s : sig V) (chain : list tag) (f : call V -> outcome) : call V -> outcome :=
     fold_right (apply_tag s) f chain.
